@@ -76,6 +76,8 @@ def read_chunked(fmt, data, K, lazy, prepend, hdr_len=0, joined=False):
             break
         chunks.append(p[1])
     if joined and status == "Stop" and tables:
+        if joined == "peek" and len(tables) > 1:
+            outcome(formats.project_table, tables[0])          # every column of the FIRST chunk is looked at before the chunks are joined
         p = outcome(lambda: formats.project_table(_join(tables)))
         if p[0] == "err":
             status, msg = "JoinFail", "np.concatenate of the chunks: " + p[1]
@@ -169,13 +171,14 @@ def check_vector(v):
             if res["sizes"] != v["sizes"] or res["reads"] != v["reads"] or (res["lines"] and res["lines"][-1] != v["lines"]):
                 drift.append({"cfg": cfg, "family": fam, "model": {"sizes": v["sizes"], "reads": v["reads"], "lines": v["lines"]},
                               "code": {"sizes": res["sizes"], "reads": res["reads"], "lines": res["lines"][-1:]}})
-        # the same chunks concatenated by the library (np.concatenate) instead of row by row
-        resj = read_chunked(fmt, data, K, lazy, cfg["mode"] == "prepend", joined=True)
-        n += 1
-        gotj = [r for c in resj["chunks"] for r in c]
-        if resj["status"] == "JoinFail" or (resj["status"] == "Stop" and res["status"] == "Stop" and gotj != rows):
-            bad.append({"what": "np.concatenate of the chunks differs from the file's entries", "tags": dict(tags0, lazy=lazy, op="read_chunks+concatenate"),
-                        "vector": v, "expected": rows, "observed": resj["msg"] or gotj})
+        # the same chunks concatenated by the library (np.concatenate) instead of row by row; also after a look at the first chunk only
+        for jn in (True, "peek"):
+            resj = read_chunked(fmt, data, K, lazy, cfg["mode"] == "prepend", joined=jn)
+            n += 1
+            gotj = [r for c in resj["chunks"] for r in c]
+            if resj["status"] == "JoinFail" or (resj["status"] == "Stop" and res["status"] == "Stop" and gotj != rows):
+                bad.append({"what": "np.concatenate of the chunks differs from the file's entries", "tags": dict(tags0, lazy=lazy, op="read_chunks+concatenate", first_chunk_looked_at=jn == "peek"),
+                            "vector": v, "expected": rows, "observed": resj["msg"] or gotj})
     nt = ["%s|%s" % (fam, json.dumps(cfg, sort_keys=True))] if K < cfg["flen"] else []
     return {"n": n, "nt": nt, "bad": bad, "drift": drift[:1]}
 
@@ -191,7 +194,7 @@ def record_trace(job):
     K = job["K"]
     src = job["src"]
     if src in ("mem", "mem-carry"):
-        res = read_chunked(fmt, data, K, job["lazy"], src == "mem-carry", joined=bool(job.get("joined")))
+        res = read_chunked(fmt, data, K, job["lazy"], src == "mem-carry", joined=(("peek" if job["tid"] % 2 else True) if job.get("joined") else False))
         if res["status"] == "JoinFail":
             res["status"] = "Stop"          # the read completed; what it delivered could not be concatenated: nothing delivered, Stop is rejected
     else:
